@@ -59,8 +59,13 @@ func NewBlockDownloader(txProcessor TxProcessor, blockTxManager BlockTxManager, 
 }
 
 func (bd *BlockDownloader) SetCanceller(id uuid.UUID, canceller BlockRequestCanceller) {
-	bd.stateLock.Lock()
+	// The requester id is read with the main lock by RequesterID, which can already be called by
+	// the block handler if the block is received before this is called.
+	bd.Lock()
 	bd.requesterID = id
+	bd.Unlock()
+
+	bd.stateLock.Lock()
 	bd.canceller = canceller
 	bd.stateLock.Unlock()
 }
